@@ -97,8 +97,11 @@ def gen_side(rng, vmf, features: Dict[str, int], mat: Optional[str] = None, disp
     power = 0
     if disp_ok and rng.random() < 0.2:
         power = rng.choice((1, 1, 2, 2, 3, 4))
+    pts = [vec(rng), vec(rng), vec(rng)]
+    if rng.random() < 0.1:
+        pts = [tuple(p) for p in pts]    # "a list of 3 Vecs or 3-tuples"
     side = Side(
-        vmf, [vec(rng), vec(rng), vec(rng)],
+        vmf, pts,
         lightmap=rng.choice((16, 1, 4, 128)), smoothing=rng.choice((0, 1, 5, 2 ** 20)),
         mat=mat if mat is not None else rng.choice(('tools/toolsnodraw', 'brick/brickwall001a', hostile(rng, 12, newlines=False, p=0.6))),
         rotation=gfloat(rng),
@@ -282,6 +285,9 @@ def gen_map(rng, size: str = 'normal', strata: bool = True) -> Tuple[Any, Dict[s
             vmf.spawn.add_out(gen_output(rng, None))
     if rng.random() < 0.15:
         vmf.spawn['targetname'] = hostile(rng, 8, p=0.3) or 'world'
+    if rng.random() < 0.08:
+        vmf.spawn.hidden = True   # a flag every entity has; the world block is written at the top level regardless
+        features['hidden_worldspawn'] = 1
     if rng.random() < 0.1:
         vmf.spawn.fixup['worldvar'] = hostile(rng, 8)
     n_brush = {'small': rng.randint(0, 2), 'normal': rng.randint(0, 4), 'big': rng.randint(2, 10)}[size]
